@@ -426,8 +426,8 @@ theorem euler_roundtrip_locked {T : Trig R} (hT : TrigOK T) {C : Cmp R} (hC : Cm
     · rw [if_neg e] at hlock
       exact euler_tb_locked hT hC lim hlim (Gen.M4.zyx r) a2 a1 a0 h2 h1 h0 (Ne.symm h12) (Ne.symm h01) (Ne.symm e) hlock
 
-/-- the matrix entries that `eulerAngles` feeds to `asin`/`atan2` (three different axes) are exactly
-`sin β`, `cos β·(sin α, cos α)` and `cos β·(sin γ, cos γ)` of the angles the matrix was built from -/
+/-- the entries of `rotateE(r)` that `eulerAngles` reads (three different axes) are `sin β` (middle angle, together with
+`c = |cos β|`) and `cos β·(sin γ, cos γ)` (last angle); likewise `cos β·(sin α, cos α)` in the last column -/
 theorem euler_arguments (T : Trig R) (r : V3 R) (a0 a1 a2 : Nat) (h0 : a0 < 3) (h1 : a1 < 3) (h2 : a2 < 3)
     (h01 : a0 ≠ a1) (h12 : a1 ≠ a2) (h02 : a0 ≠ a2) :
     (-(tbSign a0 a1 : R)) * Gen.M4.rotateE (fld R) T r a0 a1 a2 a0 a2 = T.sin r.y ∧
